@@ -68,7 +68,9 @@ func (fr *frame) get(key ssa.Value) value {
 	case *ssa.Const:
 		return constValue(key)
 	case *ssa.Global:
-		return fr.i.global(key)
+		p := fr.i.global(key)
+		fr.i.checkGlobalRead(key)
+		return p
 	}
 	if r, ok := fr.env[key]; ok {
 		return r
@@ -89,6 +91,14 @@ func (i *interpreter) global(g *ssa.Global) *value {
 	return p
 }
 
+// checkGlobalRead rejects reads of package-level state of packages whose initialiser could not be
+// interpreted completely.
+func (i *interpreter) checkGlobalRead(g *ssa.Global) {
+	if g.Pkg != nil && i.initState[g.Pkg] == 3 && i.px.inInit == 0 {
+		panic(engineError{"read of package-level variable " + g.String() + " of a package whose initialiser could not be interpreted: " + i.px.initFailed[g.Pkg.Pkg.Path()]})
+	}
+}
+
 // ensureInit lazily runs the package initialiser of pkg (not of its dependencies: those run when
 // first touched). Stubbed packages are never initialised.
 func (i *interpreter) ensureInit(pkg *ssa.Package) {
@@ -106,8 +116,34 @@ func (i *interpreter) ensureInit(pkg *ssa.Package) {
 	if init := pkg.Func("init"); init != nil && init.Blocks != nil {
 		saved := i.px.inInit
 		i.px.inInit++
-		callSSA(i, nil, token.NoPos, init, nil, nil)
+		thirdParty := !strings.HasPrefix(pkg.Pkg.Path(), i.env.ModPath)
+		failed := false
+		func() {
+			defer func() {
+				if r := recover(); r != nil {
+					if !thirdParty {
+						panic(r)
+					}
+					// A third-party initialiser that cannot be interpreted (reflection-built tables,
+					// registries): the package is marked; any later read of its package-level state
+					// outside initialisers is a machinery error, so nothing is silently zero.
+					switch r.(type) {
+					case targetPanic, runtimePanic, engineError:
+						failed = true
+						i.px.panicTrace = ""
+						i.px.initFailed[pkg.Pkg.Path()] = fmt.Sprint(r)
+					default:
+						panic(r)
+					}
+				}
+			}()
+			callSSA(i, nil, token.NoPos, init, nil, nil)
+		}()
 		i.px.inInit = saved
+		if failed {
+			i.initState[pkg] = 3
+			return
+		}
 	}
 	i.initState[pkg] = 2
 }
@@ -495,6 +531,11 @@ func prepareCall(fr *frame, call *ssa.CallCommon) (fn value, args []value) {
 		fn = v
 	} else {
 		recv := v.(iface)
+		if recv.t == nil && fr.i.px.inInit > 0 && call.Method.Pkg() != nil && (call.Method.Pkg().Path() == "reflect" || call.Method.Pkg().Path() == "internal/reflectlite") {
+			// stubbed reflection inside a package initialiser: methods of the nil reflect.Type return zero values
+			m := call.Method
+			return &closure{Fn: nil}, []value{m}
+		}
 		if recv.t == nil {
 			panic(runtimePanic{"invalid memory address or nil pointer dereference (method " + call.Method.Name() + " invoked on nil interface)"})
 		}
@@ -521,6 +562,18 @@ func call(i *interpreter, caller *frame, callpos token.Pos, fn value, args []val
 		}
 		return callSSA(i, caller, callpos, fn, args, nil)
 	case *closure:
+		if fn.Fn == nil {
+			// reflect-stub marker from prepareCall
+			m := args[0].(*types.Func)
+			res := m.Type().(*types.Signature).Results()
+			switch res.Len() {
+			case 0:
+				return nil
+			case 1:
+				return zero(res.At(0).Type())
+			}
+			return zero(res)
+		}
 		return callSSA(i, caller, callpos, fn.Fn, args, fn.Env)
 	case *ssa.Builtin:
 		return callBuiltin(caller, fn, args)
@@ -684,6 +737,13 @@ func runFrame(fr *frame) {
 			}
 		}
 	}
+}
+
+func (fr *frame) stackFromCaller() string {
+	if fr.caller != nil {
+		return fr.caller.stack()
+	}
+	return ""
 }
 
 func (fr *frame) stack() string {
